@@ -222,8 +222,12 @@ def run(rep: Report, tier: str) -> None:
         lf = P.func(f"{IO}.{ln}")
         gl = CFG(lf.node)
         vn = [n for n in gl.nodes if any(_callee_name(c) == "_validate_loaded_table" for c in gl.calls_at(n))]
+        # locals holding an INSERT statement text (assigned from a skeleton that starts with INSERT INTO)
+        ins_vars = {t.id for n_ in walk_no_nested(lf.node) if isinstance(n_, (ast.Assign, ast.AnnAssign)) and n_.value is not None
+                    and "INSERT INTO" in (sqlx.skeleton_of(n_.value) or ("", []))[0].upper()
+                    for t in (n_.targets if isinstance(n_, ast.Assign) else [n_.target]) if isinstance(t, ast.Name)}
         inserts = [n for n in gl.nodes if n.kind == "stmt" and any("INSERT INTO" in (sqlx.skeleton_of(a) or ("", []))[0].upper() or
-                                                                    (isinstance(a, ast.Name) and a.id == "insert_sql") for c in gl.calls_at(n) for a in c.args)]
+                                                                    (isinstance(a, ast.Name) and a.id in ins_vars) for c in gl.calls_at(n) for a in c.args)]
         rep.instance("R19.1", f"validate-after-load/{ln}", nontrivial=True)
         if not inserts or not vn:
             raise AnalysisError(f"{ln}: INSERT execution / _validate_loaded_table call not found")
